@@ -612,10 +612,26 @@ func (c *pctx) funcdef(t *rapid.T) (string, int) {
 
 func (c *pctx) builtin(t *rapid.T) string {
 	c.feat("builtin")
-	switch rapid.IntRange(0, 24).Draw(t, "builtin") {
+	switch rapid.IntRange(0, 25).Draw(t, "builtin") {
 	case 24:
 		c.feat("tail-template")
 		return pick(t, "tailtemplate", rwTail)
+	case 25:
+		// the same small programs at sizes that make the interpreter's stacks,
+		// fork list and variable table grow several times
+		c.feat("scale")
+		n := pick(t, "scalen", []string{"3", "17", "33", "65", "129", "257", "600", "1025"})
+		return strings.ReplaceAll(pick(t, "scaletemplate", []string{
+			"[range(N)] | map(. + 1) | add", "reduce range(N) as $i (0; . + $i)", "[limit(N; repeat(1))] | length", "def f: if . < N then . + 1 | f else . end; 0 | f", "[range(N)] | sort | (length, .[0], .[-1])",
+			"[range(N) | tostring] | join(\",\") | length", "[range(N)] as $a | [$a[] | select(. % 7 == 0)] | length", "last(range(N))", "[foreach range(N) as $i (0; . + $i)] | (length, .[-1])",
+			"def f: if . == 0 then 0 else (. - 1 | f) + 1 end; N | f", "def f: if . == 0 then [] else [. - 1 | f] end; N | f | tojson | length", "[range(N)] | reverse | .[0]", "[range(N) | [., .]] | map(add) | add",
+			"first(range(N) | select(. == N - 1))", "[range(N)] | to_entries | map(.key + .value) | add", "reduce range(N) as $i ([]; . + [$i]) | length", "reduce range(N) as $i ({}; .[\"k\\($i)\"] = $i) | length",
+			"[range(N)] | [.[] as $x | $x, -$x] | length", "[range(N)] | [paths] | length", "[range(N)] | del(.[range(0; N; 2)]) | length", "[range(N)] | (.[] |= . + 1) | add", "[range(N)] | [.[] | select(. > N - 3)]",
+			"label $out | range(N) | if . == N - 1 then ., break $out else empty end", "[range(N) | try (if . % 2 == 0 then error else . end) catch -1] | add", "[range(N)] | any(. == N - 1), all(. < N)",
+			"[recurse(if . < N then . + 1 else empty end)] | length", "[range(N)] | [limit(3; .[])], [first(.[]), last(.[])]", "[range(N) as $i | range($i; $i + 2)] | length", "until(. >= N; . + 1)",
+			"[while(. < N; . + 1)] | length", "[range(N)] | map(tojson) | map(fromjson) | add", "[range(N)] | tostream | select(length == 1)", "[range(N)] | [.[:N / 2 | floor], .[N / 2 | floor:]] | map(length)",
+			"[range(N)] | . as [$a, $b] | [$a, $b]", "def f(g): [g] | length; f(range(N))", "def f($a; $b): $a + $b; [range(N) | f(.; 1)] | add", "[range(N)] | group_by(. % 5) | map(length)", "[range(N)] | unique | length",
+			"[range(N)] | (min, max, add / length)", "[range(N) | {a: ., b: -.}] | (map(.a) | add), (sort_by(.b) | .[0].a)"}), "N", n)
 	case 21, 22, 23:
 		// lexical scope: a definition or binding made inside a sub-expression
 		// must not be visible after it
